@@ -7,12 +7,14 @@ from hv import Case
 from props.c18 import parse_snap
 
 SPEC = {
-    "lean_modules": ["Honeycomb.Props.C04", "Honeycomb.Props.C04Cells", "Honeycomb.Props.C04Cells2", "Honeycomb.Props.C04Gen"],
+    "lean_modules": ["Honeycomb.Props.C04", "Honeycomb.Props.C04Cells", "Honeycomb.Props.C04Cells2", "Honeycomb.Props.C04Gen", "Honeycomb.Props.C01Gen2"],
     # Gen/AttrMoves.lean is re-translated from attributes/collections.rs before every build
-    "gen": ["attrs"],
+    "gen": ["attrs", "sews2"],
     "required_theorems": [
+        # Props/C01Gen2.lean: the translated CMap2::one_sew / one_unsew ARE the model's oneSew2 / oneUnsew2
+        "C01_gen_oneSew2", "C01_gen_oneUnsew2",
         # Props/C04Gen.lean: the translated AttrSparseVec::merge / split ARE the model's mergeS / splitS (program equality)
-        "C04_gen_merge_dispatch", "C04_gen_split_dispatch", "C04_gen_mergeS", "C04_gen_splitS","C04_oneSew2_effect", "C04_oneUnsew2_effect", "C04_twoSew2_both", "C04_twoSew2_left", "C04_twoSew2_right",
+        "C04_gen_merge_dispatch", "C04_gen_split_dispatch", "C04_gen_mergeS", "C04_gen_splitS", "C04_gen_merge_run", "C04_gen_split_run","C04_oneSew2_effect", "C04_oneUnsew2_effect", "C04_twoSew2_both", "C04_twoSew2_left", "C04_twoSew2_right",
                           "C04_twoSew2_free", "C04_twoUnsew2_effect", "C04_twoSew2_refuses", "C04_same_cell_value_is_kept",
                           "C04_oneSew2_cells", "C04_oneUnsew2_cells", "C04_twoSew2_cells", "C04_twoUnsew2_cells",
                           "C04_twoSew2_cells_free", "C04_twoSew2_cells_left", "C04_twoSew2_cells_right"],
